@@ -263,10 +263,10 @@ def _run_tuner(sim, scen, tuner, final, info, hooks, backend, store):
         raise
     except BaseException as e:
         final["exception"] = {
-            "type": type(e).__name__, "msg": str(e)[:400], "where": probes._innermost_repo_frame(e),
+            "type": type(e).__name__, "msg": probes.clean(e), "where": probes._innermost_repo_frame(e),
             "injected": isinstance(e, probes.Injected),
         }
-        sim.log("run.end", exc=type(e).__name__, msg=str(e)[:400], where=final["exception"]["where"],
+        sim.log("run.end", exc=type(e).__name__, msg=probes.clean(e), where=final["exception"]["where"],
                 injected=isinstance(e, probes.Injected))
     # ---- post-mortem facts (pure reads) ---------------------------------------
     st = tuner.tuning_status
